@@ -199,8 +199,10 @@ class WebSocketApp:
         Close websocket connection.
         """
         self.keep_running = False
-        if self.sock:
-            self.sock.close(**kwargs)
+        # run_forever's teardown (another thread) may reset self.sock at any moment
+        sock = self.sock
+        if sock:
+            sock.close(**kwargs)
             self.sock = None
 
     def _start_ping_thread(self) -> None:
@@ -350,8 +352,10 @@ class WebSocketApp:
 
             self._stop_ping_thread()
             self.keep_running = False
-            if self.sock:
-                self.sock.close()
+            # close() called from another thread may reset self.sock at any moment
+            sock = self.sock
+            if sock:
+                sock.close()
             close_status_code, close_reason = self._get_close_args(
                 close_frame if close_frame else None
             )
